@@ -71,6 +71,20 @@ def ready_signal(prog, e):
         return 'plain'
     if e.get('k') == 'un' and e.get('op') in ('pre++', 'post++') and strip_lv(e['e']).get('k') == 'mem' and strip_lv(e['e']).get('f') == 'ready':
         return 'plain'
+    if e.get('k') == 'call' and e.get('obj') is not None and 'Thread::Context' in (e.get('cls') or e.get('fn') or ''):
+        # a member of the context itself (`ctx->handBack()`): classified by what its body does to `ready`
+        for g in prog.fn(e.get('fn'), e.get('sig')):
+            if not g.get('body'):
+                continue
+            kinds = []
+            for w in fn_exprs(g):
+                if is_sync_call(w) and any(_addr_of_ready(a) for a in w.get('a', [])):
+                    kinds.append('atomic')
+                elif w.get('k') == 'bin' and w.get('op') == '=' and strip_lv(w['x']).get('k') == 'mem' and strip_lv(w['x']).get('f') == 'ready':
+                    kinds.append('plain')
+            if kinds:
+                return 'atomic' if kinds[0] == 'atomic' else 'plain'
+        return None
     if e.get('k') == 'call' and any(_addr_of_ready(a) for a in e.get('a', [])):
         if is_sync_call(e):
             return 'atomic'
@@ -323,11 +337,27 @@ def check_context(ctx, prog):
         cfg = cfgm.CFG(f)
         bad = []
 
+        def waits_for_ready(g):
+            """every path through the member g leaves it only after a branch on `ready` was taken on its true edge"""
+            gc = cfgm.CFG(g)
+
+            def ed(nd, lab, st):
+                if nd.kind == 'br' and nd.e is not None and any(w.get('k') == 'mem' and w.get('f') == 'ready' for w in walk_expr(nd.e)) and lab is True:
+                    return True
+                return st
+            r_, _ = cfgm.dataflow(gc, False, lambda nd, st: st, ed)
+            ex = r_.get(gc.exit.id, set())
+            return bool(ex) and all(ex)
+
         def step(nd, st):
             if nd.kind == 'ev' and nd.e is not None:
                 e = nd.e
+                if st == 'handed' and e.get('k') == 'call' and e.get('obj') is not None and strip_lv(e['obj']).get('k') == 'var' and strip_lv(e['obj']).get('id') == cv['id']:
+                    for g in prog.fn(e.get('fn'), e.get('sig')):
+                        if g.get('body') and waits_for_ready(g):
+                            return 'seen'
                 if e.get('k') == 'call' and (e.get('pq') or '') == 'asl::Thread::run' and any(w.get('k') == 'var' and w.get('id') == cv['id'] for a in e.get('a', []) for w in walk_expr(a)):
-                    return 'handed'
+                    return 'hande'
             if nd.kind == 'dtor' and isinstance(nd.info, dict) and nd.info.get('id') == cv['id'] and st == 'handed':
                 bad.append(nd.line)
             return st
@@ -499,11 +529,21 @@ def check_partition(ctx, prog):
     except bytesets.Undecidable as ex:
         ctx.undecided('C13.partition', f['pq'], role, fwhere(f), 'guards of an early return not evaluable: %s' % ex)
     # spawn loop and context initialiser
-    loops = [s_ for s_ in ir.walk_stmts(f['body']) if s_.get('k') in ('for', 'while') and any(e.get('k') == 'call' and e.get('pq') == 'asl::Thread::run' for e in ir.stmt_exprs(s_['body']))]
+    # the call that creates one worker: Thread::run itself, or a helper of Thread that builds the context and calls it
+    def spawn_helper(e):
+        if e.get('k') != 'call' or not e.get('fn') or e.get('pq') == 'asl::Thread::run':
+            return None
+        for h in prog.fn(e['fn'], e.get('sig')):
+            if h.get('body') and (h.get('clsp') or h.get('cls') or '').startswith('asl::Thread') and any(w.get('k') == 'call' and w.get('pq') == 'asl::Thread::run' for w in fn_exprs(h)):
+                return h
+        return None
+    loops = [s_ for s_ in ir.walk_stmts(f['body']) if s_.get('k') in ('for', 'while') and any(e.get('k') == 'call' and (e.get('pq') == 'asl::Thread::run' or spawn_helper(e) is not None) for e in ir.stmt_exprs(s_['body']))]
     if len(loops) != 1:
         ctx.undecided('C13.partition', f['pq'], 'parallel_for:spawn loop', fwhere(f), 'spawn loop not found')
         return
     lp = loops[0]
+    helper_call = next((e for e in ir.stmt_exprs(lp['body']) if spawn_helper(e) is not None), None)
+    helper = spawn_helper(helper_call) if helper_call is not None else None
     cl = q.counted_loop(f, lp)
     if cl is None:
         ctx.undecided('C13.partition', f['pq'], 'parallel_for:spawn loop runs worker indices 0..n-1', fwhere(f, lp['l']), 'spawn loop is not a recognised counting loop')
@@ -513,9 +553,27 @@ def check_partition(ctx, prog):
     ctx.check(okl, 'C13.partition', f['pq'], 'parallel_for:spawn loop runs worker indices 0..n-1', fwhere(f, lp['l']), 'for (i = 0; i < n; i++)', 'spawn loop does not run the worker index over 0 .. n-1 (n = worker count): init `%s`, condition `%s %s %s`, step %s'
               % (pe(cl['init']), cl['name'], cl['op'], pe(cl['bound']), cl['step'] if isinstance(cl['step'], int) else pe(cl['step'])))
     inits = [v for s_ in ir.walk_stmts(lp['body']) if s_.get('k') == 'decl' for v in s_['vars'] if strip(v.get('init') or {}).get('k') == 'initlist']
+    host_f = f
+    if not inits and helper is not None:
+        # the context is built inside the helper from its parameters: read it there and substitute the arguments of the call
+        inits = [v for s_ in ir.walk_stmts(helper['body']) if s_.get('k') == 'decl' for v in s_['vars'] if strip(v.get('init') or {}).get('k') == 'initlist']
+        host_f = helper
     if len(inits) == 1 and iv is not None:
         items = strip(inits[0]['init'])['items']
-        rec = prog.records.get(T(f, inits[0]['t']).get('rec'))
+        if host_f is not f:
+            amap = dict((p_['id'], a_) for p_, a_ in zip(helper['params'], helper_call.get('a', [])))
+
+            def subst_(x):
+                x = strip(q.expand(helper, x))
+                if isinstance(x, dict) and x.get('k') == 'var' and x.get('id') in amap:
+                    return strip(amap[x['id']])
+                if isinstance(x, dict) and x.get('k') == 'bin':
+                    y = dict(x)
+                    y['x'], y['y'] = subst_(x['x']), subst_(x['y'])
+                    return y
+                return x
+            items = [subst_(it) for it in items]
+        rec = prog.records.get(T(host_f, inits[0]['t']).get('rec'))
         names = [fl['n'] for fl in rec['fields']] if rec else []
         byname = dict(zip(names, items))
         st = strip(byname.get('i0') or {})
